@@ -143,8 +143,9 @@ def leaf(r):
     return CONST
   if x < 0.76:
     # by-value constants, and values that merely EQUAL one (0.5 == HALF, 1 == 1.0 == True == UNIT)
-    return r.choice([HALF, UNIT, 0.5, 1, 1.0, True, fractions.Fraction(1, 2), decimal.Decimal('0.5'),
-                     fractions.Fraction(1, 1)])
+    # (not a second Fraction(1, 2) instance: registering by value DECLARES equal instances
+    # interchangeable, they come back as the one registered object)
+    return r.choice([HALF, UNIT, 0.5, 1, 1.0, True, decimal.Decimal('0.5'), fractions.Fraction(1, 1)])
   if x < 0.82:
     return r.choice([(1, 's'), (), ((1, 2), (1, 2))])
   if x < 0.86:
@@ -277,7 +278,7 @@ def contains_special_float(v):
       return any(walk(k) or walk(y) for k, y in x.items())
     if isinstance(x, (list, tuple, set, frozenset)):
       return any(walk(y) for y in x)
-    if isinstance(x, DictObj):
+    if isinstance(x, (DictObj, LoggedObj)):
       return any(walk(y) for y in x.__dict__.values())
     if isinstance(x, slice):
       return any(walk(y) for y in (x.start, x.stop, x.step))
